@@ -47,6 +47,10 @@ Consume ==
                                          /\ upgrading' = upgrading /\ upgraded' = upgraded /\ q' = q
             [] e.op = "ws_wait"   -> p = U /\ (UFrame("u_wait1", "u_got1") \/ UFrame("u_wait2", "u_got2"))
                                      /\ it'[p] = e.item
+            [] e.op = "flagread"  -> IF p = U THEN (UBegin \/ URead2) /\ pc'[p] \in {"u_r1", "u_r2"}
+                                                   /\ e.item = "upgraded=F"
+                                     ELSE ShortStep(p) /\ pc'[p] \in {"g1", "g2", "g3"}
+                                          /\ e.item = (IF pc'[p] = "g2" THEN "upgrading=" ELSE "upgraded=") \o it'[p]
             [] e.op = "flag"      -> p = U /\ UpgraderStep /\ FlagIs(e.item) /\ q' = q
                                      /\ pc'[p] \notin {"u_wait1", "u_wait2", "r_wait", "put", "done"}
                                      /\ wsout' = wsout
@@ -61,6 +65,7 @@ Finish ==
     /\ q = Fin.q /\ unf = Fin.unf /\ intable = Fin.intable /\ sent = Fin.sent
     /\ upgrading = Fin.upgrading /\ upgraded = Fin.upgraded
     /\ MsgsOf(deliv) = Fin.pdeliv /\ MsgsOf(wsdeliv) = Fin.wdeliv
+    /\ \A i \in 1..Len(Fin.status) : resp[Fin.status[i][1]] = Fin.status[i][2]
     /\ PrintT(<<"ACC", tid>>)
     /\ l' = l + 1 /\ UNCHANGED <<allvars, tid>>
 
